@@ -78,6 +78,7 @@ _scalars = st.one_of(
     st.builds(lambda b: ["bytes", b.hex()], st.binary(max_size=4)),
     st.builds(lambda b: ["bool", b], st.booleans()),
     st.just(["none"]),
+    st.builds(lambda k: ["stdlib", k], st.integers(0, 5)),
 )
 _leaves = st.one_of(
     _scalars,
@@ -219,6 +220,14 @@ class Builder:
             return bool(spec[1])
         if t == "none":
             return None
+        if t == "stdlib":
+            # values whose picklability comes from the standard library's copyreg registrations / reduce protocol
+            import datetime
+            import decimal
+            import fractions
+            import re
+
+            return [re.compile("a+b?"), complex(1.5, -2), datetime.date(2024, 2, 29), decimal.Decimal("1.10"), fractions.Fraction(3, 7), range(2, 9, 3)][spec[1] % 6]
         if t == "ref":
             return self.objs[spec[1] % len(self.objs)]
         if t == "shared":
